@@ -323,6 +323,7 @@ def judge (st : St) (impl : Option (List String)) (want : Want) (isQuery : Bool)
   | some t =>
     match splitTok ";" t with
     | [res, stt] =>
+      if stt.any (fun tok => tok.startsWith "-:") then ("FAIL:assoc:null_object_key", none) else
       match parseWorld stt with
       | some wi =>
         let res := " ".intercalate res
@@ -392,8 +393,9 @@ def omut (st : St) (impl : Option (List String)) (r : OOut String) (want : Want)
     | .exc .bpp w' => ("exc:bpp", w')
     | .exc .std w' => ("exc:std", w')
     | .ub => ("ub", st.w)
-  -- the reference only fixes the graph part; the expected result text is the model's
-  let want' : Want := { res := if want.res == "exc:bpp" then res else res, spec := want.spec }
+  -- the reference multigraph only fixes the graph part; the expected result text of an
+  -- object-level call is the model's (whose maps are compared with the implementation's)
+  let want' : Want := { res := res, spec := want.spec }
   finish st res w' want' (judge st impl want' false "result_spec" copyJK)
 
 def _root_.Bpp.Graph.OOut.str {α : Type} (r : OOut α) (f : α → String) : OOut String :=
